@@ -173,6 +173,9 @@ def run_level_C(S, seed, cases):
                              "stderr": r.err[:2000].decode("utf-8", "replace"), "rc": r.rc})
         S.count("C_runs")
         S.count("C_" + case["container"])
+        from .. import replay as R
+        if exp.cells is not None:
+            wit["replay"] = R.exact(r, ("#SHAPE=<%s>\n%s\n" % ("/".join(map(str, exp.shape)), " ".join(str(int(x)) for x in exp.cells))).encode())
         ok = False
         if r.timed_out:
             S.inconc("timeout on %s" % case["labels"])
@@ -194,7 +197,7 @@ def run_level_C(S, seed, cases):
             S.count("twin_comparisons")
             if t.out != r.out or t.rc != r.rc:
                 S.viol("C01:unselected-influence:%s" % where, "[%s %s] junk in unselected columns changed the output: rc %s %r / %r" % (
-                    where, case["labels"], t.rc, t.out[:200], t.err[:300]), dict(wit, twin_vcf=case["twin"].to_vcf().decode()[:20000]))
+                    where, case["labels"], t.rc, t.out[:200], t.err[:300]), dict(wit, twin_vcf=case["twin"].to_vcf().decode()[:20000], replay=R.same(t, r)))
         S.case(key=digest([E.codes(cs), E.map_json(smap)]), nontrivial=nontrivial(cs, smap, exp))
         if ci == 0 and case["labels"][0] == "s1":
             S.sample({"level": where, "argv": r.argv, "stdout": r.out[:300].decode("utf-8", "replace"), "expected_shape": exp.shape,
